@@ -574,6 +574,17 @@ func genC08(seed uint64, idx int) *Plan {
 		}
 		return &Plan{Kind: "hostile", Seed: seed, Hostile: h}
 	}
+	if idx%10 == 6 {
+		// a key list whose first entry has a private key that does not parse, and
+		// a hello (GREASE is enough) that names its config id and suite
+		h.Base.NoECH, h.Base.Grease, h.Base.Expect, h.Base.GreaseNamesBadKey = false, true, "passthrough", true
+		bad := h.Base.Target
+		bad.KeySeed += 9001
+		bad.BadPriv = true
+		h.Base.Keys = append([]KeySpec{bad}, h.Base.Keys...)
+		h.NoKeys, h.Muts, h.RawFirst = false, nil, nil
+		return &Plan{Kind: "hostile", Seed: seed, Hostile: h}
+	}
 	if idx%25 == 7 && !b.NoECH && !b.Grease {
 		// decompression bomb: an authentic hello naming one big outer extension 127 times
 		h.Base.Compress, h.Base.ExtraIn = true, max(h.Base.ExtraIn, 4)
